@@ -91,14 +91,6 @@ func flight0Parse(
 		return 0, dtlsAlert, err
 	}
 
-	if state.LocalKeypair == nil {
-		var err error
-		state.LocalKeypair, err = elliptic.GenerateKeypair(state.NamedCurve)
-		if err != nil {
-			return 0, &alert.Alert{Level: alert.Fatal, Description: alert.IllegalParameter}, err
-		}
-	}
-
 	state.RemoteClientHelloSnapshots.Reset()
 	if err := state.RemoteClientHelloSnapshots.RecordWire(pull.Items[0].Raw.Data); err != nil {
 		return 0, nil, err
@@ -108,6 +100,18 @@ func flight0Parse(
 
 	if cfg.InsecureSkipHelloVerify {
 		nextFlight = Flight4
+	}
+
+	// With hello verification the key pair is generated once the cookie came
+	// back (flight2Parse): a ClientHello from an unverified address must not
+	// make the server do key-exchange work.
+	// https://datatracker.ietf.org/doc/html/rfc6347#section-4.2.1
+	if nextFlight == Flight4 && state.LocalKeypair == nil {
+		var err error
+		state.LocalKeypair, err = elliptic.GenerateKeypair(state.NamedCurve)
+		if err != nil {
+			return 0, &alert.Alert{Level: alert.Fatal, Description: alert.IllegalParameter}, err
+		}
 	}
 
 	return handleHelloResume(clientHello.SessionID, state, cfg, nextFlight)
